@@ -251,11 +251,42 @@ def check_address(interp, meta, V, cov):
         kind, detail = classify(res)
         av = res.ctx.value(res.info["addr"].l)
         if kind == "ok":
-            ok = implies(res, av < 2**32) and implies(res, res.value.fields[0].v == av)
-            V.add(f"address#p{pi}: accepted only below 2^32, value preserved", "discharged" if ok else "inconclusive")
+            goal = z3.And(av < 2**32, res.value.fields[0].v == av)
+            label = "accepted only below 2^32, value preserved"
         elif kind == "err":
-            ok = implies(res, av >= 2**32)
-            V.add(f"address#p{pi}: rejected only at or above 2^32", "discharged" if ok else "inconclusive")
+            goal = av >= 2**32
+            label = "rejected only at or above 2^32"
+        else:
+            continue
+        if implies(res, goal):
+            V.add(f"address#p{pi}: {label}", "discharged")
+            continue
+        # counterexample address -> native run of `mem_load` at that address
+        s = z3.Solver()
+        s.add(res.ctx.side)
+        s.add(res.pc)
+        s.add(z3.Not(goal))
+        if s.check() != z3.sat:
+            V.add(f"address#p{pi}: {label}", "inconclusive", detail="solver unknown")
+            continue
+        a = s.model().eval(av, model_completion=True).as_long()
+        import json
+        from common import build_engine, run, WORK
+        binp = build_engine("replay", release=True)
+        d = os.path.join(WORK, "replay")
+        os.makedirs(d, exist_ok=True)
+        jf, of = os.path.join(d, "c07.in.json"), os.path.join(d, "c07.out.json")
+        src = "begin mem_load end"
+        json.dump({"jobs": [{"kind": "exec_masm", "source": src, "stack": [str(a)], "max_cycles": 4096}]}, open(jf, "w"))
+        run([binp, jf, of], timeout=300)
+        nat = json.load(open(of))["results"][0]
+        want_ok = a < 2**32
+        path = save_replay(PROP, f"address_{pi}", dict(kind="exec_masm", source=src, stack=[str(a)], native=nat, expected="ok" if want_ok else "error"))
+        if (nat["status"] == "ok") != want_ok:
+            V.violation(f"address#p{pi}: {label}", path, f"memory address {a}: native mem_load ends {nat['status']}, documented: {'ok' if want_ok else 'error (>= 2^32)'}",
+                        key="address:bound")
+        else:
+            V.add(f"address#p{pi}: {label}", "inconclusive", detail=f"solver counterexample addr={a} did not reproduce natively")
     V.add("address: both paths exist", "discharged" if len(paths) == 2 else "inconclusive")
 
 
